@@ -109,22 +109,50 @@ def goMulF64 (a : Int) (n d : Nat) : Int :=
 /-- the float primitive the fee arithmetic is generic in. -/
 abbrev MulDiv := Int → Nat → Nat → Int
 
+/-! ## Go fixed-width integers
+
+The code computes rates, fees and amounts in `int64`, heights in `int32`, conf targets, widths
+and positions in `uint32`.  The model reproduces the wrap-around of every such operation of the
+fee function, of `FeeForWeight` and of `calcCurrentConfTarget` (these are the definitions the
+regenerated tie `LndModel.Gen.C18` / `C18/GenRefine.lean` proves equal to the code's, for ALL
+inputs).  Same definitions as `LndModel.Gen.GoInt`. -/
+
+/-- two's complement wrap of an `int64` result. -/
+def wrap64 (x : Int) : Int := (x + 9223372036854775808) % 18446744073709551616 - 9223372036854775808
+/-- two's complement wrap of an `int32` result. -/
+def wrap32 (x : Int) : Int := (x + 2147483648) % 4294967296 - 2147483648
+/-- `2^32`: `uint32` results are taken modulo this. -/
+def u32Mod : Nat := 4294967296
+
+/-- range of an `int64`. -/
+def InI64 (x : Int) : Prop := -9223372036854775808 ≤ x ∧ x < 9223372036854775808
+
+theorem wrap64_of_isI64 {x : Int} (h : InI64 x) : wrap64 x = x := by
+  simp only [InI64] at h; simp only [wrap64]; omega
+
+theorem wrap64_isI64 (x : Int) : InI64 (wrap64 x) := by
+  simp only [InI64, wrap64]; omega
+
 /-! ## chainfee rates -/
 
 /-- `chainfee.NewSatPerKWeight(fee, wu) = fee.MulF64(1000 / float64(wu))`. -/
 def newSatPerKWeight (M : MulDiv) (fee : Int) (wu : Nat) : Int := M fee 1000 wu
 
-/-- `SatPerKWeight.FeeForWeight(wu) = s * wu / 1000` (Go integer division). -/
-def feeForWeight (rate : Int) (wu : Nat) : Int := Int.tdiv (rate * wu) 1000
+/-- `SatPerKWeight.FeeForWeight(wu) = btcutil.Amount(s) * btcutil.Amount(wu) / 1000`: the
+    `uint64` weight is converted to `int64`, the product is an `int64` product (wraps), the
+    division truncates towards zero. -/
+def feeForWeight (rate : Int) (wu : Nat) : Int := Int.tdiv (wrap64 (rate * wrap64 (wu : Int))) 1000
 
 /-- `BumpRequest.MaxFeeRateAllowed` given the estimated weight `wu`. -/
 def maxFeeRateAllowed (M : MulDiv) (budget : Int) (wu : Nat) (maxFeeRate : Int) : Int :=
   let r := newSatPerKWeight M budget wu
   if r > maxFeeRate then maxFeeRate else r
 
-/-- `calcCurrentConfTarget(currentHeight, deadline)`. -/
+/-- `calcCurrentConfTarget(currentHeight, deadline)`: `deadline - currentHeight` is an `int32`
+    subtraction (wraps); a negative delta gives conf target 0, otherwise `uint32(delta)`. -/
 def calcCurrentConfTarget (height deadline : Int) : Nat :=
-  if deadline - height < 0 then 0 else (deadline - height).toNat
+  let d := wrap32 (deadline - height)
+  if d < 0 then 0 else d.toNat
 
 /-! ## LinearFeeFunction -/
 
@@ -182,15 +210,15 @@ def newLinear (M : MulDiv) (maxFeeRate : Int) (ct : Nat) (startOpt : Option Int)
     match startR with
     | .error e => .error e
     | .ok start =>
-      let delta := M (maxFeeRate - start) 1000 width
+      let delta := M (wrap64 (maxFeeRate - start)) 1000 width
       if delta = 0 ∧ width ≠ 1 then .error .zeroDelta
       else .ok ⟨start, maxFeeRate, start, width, 0, delta⟩
 
-/-- `feeRateAtPosition(p)`. -/
+/-- `feeRateAtPosition(p)`; `startingFeeRate + feeRateDelta` is an `int64` addition (wraps). -/
 def FeeFn.rateAt (M : MulDiv) (f : FeeFn) (p : Nat) : Int :=
   if p ≥ f.width then f.end_
   else
-    let r := f.start + M f.delta p 1000
+    let r := wrap64 (f.start + M f.delta p 1000)
     if r > f.end_ then f.end_ else r
 
 /-- `increaseFeeRate(position)`. -/
@@ -200,13 +228,15 @@ def FeeFn.increaseTo (M : MulDiv) (f : FeeFn) (p : Nat) : Except Err (FeeFn × B
     let r := f.rateAt M p
     .ok ({ f with pos := p, cur := r }, decide (r > f.cur))
 
-/-- `Increment()`. -/
+/-- `Increment()` = `increaseFeeRate(l.position + 1)` (a `uint32` addition). -/
 def FeeFn.increment (M : MulDiv) (f : FeeFn) : Except Err (FeeFn × Bool) :=
-  f.increaseTo M (f.pos + 1)
+  f.increaseTo M ((f.pos + 1) % u32Mod)
 
-/-- the new position computed by `IncreaseFeeRate(confTarget)`. -/
+/-- the new position computed by `IncreaseFeeRate(confTarget)`: `l.width + 1` is a `uint32`
+    addition, so for `width = 2^32 - 1` it is 0 and no conf target is below it. -/
 def FeeFn.newPos (f : FeeFn) (ct : Nat) : Nat :=
-  if ct < f.width + 1 then f.width + 1 - ct else 0
+  let w1 := (f.width + 1) % u32Mod
+  if ct < w1 then w1 - ct else 0
 
 /-- `IncreaseFeeRate(confTarget)`. -/
 def FeeFn.increaseFeeRate (M : MulDiv) (f : FeeFn) (ct : Nat) : Except Err (FeeFn × Bool) :=
@@ -507,6 +537,17 @@ def feeBump (M : MulDiv) (r : Req) (rc : Rec) (height : Int) (mp : List Ans) (pu
 of an input (`InputSize*4 + witness size`) and "its required output is dust" are parameters
 taken from the implementation.  No aux sweeper, no exclusive groups. -/
 
+/-- `lnwallet.DustLimitForSize(scriptSize)`: the dust threshold (at the 3000 sat/kvB dust relay
+    fee) of the script template of that size: P2WPKH (22), P2WSH / P2TR (34), P2SH (23), P2PKH (25),
+    anything else is priced as an unknown witness program.  The five constants are compared with
+    the implementation's on every run (`FACT` line). -/
+def dustLimitForSize (size : Nat) : Int :=
+  if size = 22 then 294 else if size = 34 then 330 else if size = 23 then 540
+  else if size = 25 then 546 else 354
+
+/-- `isDustOutput(txOut)` of sweep/aggregator.go. -/
+def isDustOutput (value : Int) (scriptSize : Nat) : Bool := decide (value < dustLimitForSize scriptSize)
+
 /-- a pending input of the sweeper as the aggregator sees it. -/
 structure PInp where
   idx : Nat
@@ -517,8 +558,18 @@ structure PInp where
   immediate : Bool
   lt : Option Nat
   wu : Nat
-  reqDust : Bool
+  /-- `SignDesc().Output.Value`. -/
+  value : Int
+  /-- `RequiredTxOut().Value` and the length of its `PkScript`. -/
+  req : Option Int
+  reqSize : Nat
 deriving Repr, DecidableEq
+
+/-- "the input's required output is dust" (`filterInputs`). -/
+def PInp.reqDust (i : PInp) : Bool :=
+  match i.req with
+  | some v => isDustOutput v i.reqSize
+  | none => false
 
 /-- `BudgetAggregator.filterInputs` for min relay fee `relay`. -/
 def filterInputs (relay : Int) (l : List PInp) : List PInp :=
@@ -588,5 +639,67 @@ def clusterInputs (relay : Int) (maxInputs : Nat) (l : List PInp) : List InSet :
   (groupByKey (·.deadline) f.length f).flatMap fun g =>
     (lockGroups (sortInputs g)).flatMap fun lg =>
       (chunks (max maxInputs 1) (lg.length + 1) lg).map fun c => ⟨(g.head?.map (·.deadline)).getD 0, c⟩
+
+/-! ## wallet-input top-up (`BudgetInputSet.NeedWalletInput` / `AddWalletInputs`) and the request
+`UtxoSweeper.sweep` builds from a set -/
+
+/-- the loop of `NeedWalletInput`: `(budgetNeeded, budgetBorrowable)` starting from
+    `(extraBudget, 0)`. -/
+def needAmts (extra : Int) (l : List PInp) : Int × Int :=
+  l.foldl (fun (acc : Int × Int) i =>
+    if i.req.isSome then (acc.1 + i.budget, acc.2) else (acc.1, acc.2 + (i.value - i.budget))) (extra, 0)
+
+/-- `BudgetInputSet.NeedWalletInput()`. -/
+def needWalletInput (extra : Int) (l : List PInp) : Bool :=
+  decide ((needAmts extra l).2 < (needAmts extra l).1)
+
+/-- a confirmed wallet UTXO (`wu`: weight of the input it becomes, a parameter). -/
+structure Utxo where
+  value : Int
+  wu : Nat
+deriving Repr, DecidableEq
+
+/-- `addWalletInput`: budget 0, the set's deadline, no starting rate, no required output. -/
+def walletPInp (deadline : Int) (idx : Nat) (u : Utxo) : PInp :=
+  { idx := idx, budget := 0, deadline := deadline, start := none, immediate := false, lt := none,
+    wu := u.wu, value := u.value, req := none, reqSize := 0 }
+
+/-- the loop of `AddWalletInputs` over the (sorted) UTXOs: add one at a time until
+    `NeedWalletInput()` is false; the flag says whether that happened. -/
+def addWalletLoop (extra deadline : Int) : List Utxo → List PInp → List PInp × Bool
+  | [], l => (l, false)
+  | u :: rest, l =>
+    let l' := l ++ [walletPInp deadline l.length u]
+    if needWalletInput extra l' then addWalletLoop extra deadline rest l' else (l', true)
+
+/-- `BudgetInputSet.AddWalletInputs(wallet)`: smallest UTXOs first (`sort.Slice` is not stable:
+    the model agrees with it for pairwise different values); if the UTXOs run out the sweep goes
+    ahead anyway as long as one input can pay fees. -/
+def addWalletInputs (extra deadline : Int) (utxos : List Utxo) (l : List PInp) : Except Err (List PInp) :=
+  let sorted := utxos.mergeSort (fun a b => decide (a.value ≤ b.value))
+  let r := addWalletLoop extra deadline sorted l
+  if r.2 then .ok r.1
+  else if r.1.any (fun i => i.req.isNone) then .ok r.1
+  else .error .inputs
+
+/-- what `sweepPendingInputs` does with a set: top it up only if it needs wallet inputs. -/
+def topUp (extra : Int) (utxos : List Utxo) (s : InSet) : Except Err InSet :=
+  if needWalletInput extra s.inputs then
+    match addWalletInputs extra s.deadline utxos s.inputs with
+    | .ok l => .ok { s with inputs := l }
+    | .error e => .error e
+  else .ok s
+
+/-- the publisher's view of a pending input. -/
+def PInp.toInp (i : PInp) : Inp := ⟨i.value, i.req, i.lt⟩
+
+/-- the `BumpRequest` of `UtxoSweeper.sweep(set)`: `Inputs()`, `Budget()`, `DeadlineHeight()`,
+    `StartingFeeRate()` of the set; weights, dust limit of the delivery script, `MaxFeeRate` and
+    the aux output are parameters. -/
+def reqOfSet (s : InSet) (extraBudget maxFeeRate : Int) (wBudget wTx : Nat) (dust : Int)
+    (aux : Option Int) : Req :=
+  { inputs := s.inputs.map PInp.toInp, budget := setBudget s.inputs + extraBudget,
+    maxFeeRate := maxFeeRate, deadline := s.deadline, start := setStart s.inputs,
+    wBudget := wBudget, wTx := wTx, dust := dust, extra := aux }
 
 end LndModel.C18
